@@ -70,7 +70,8 @@ META = {
              "hence equal for journals with the same contents whatever the versions and order; (3) the journal keeps one entry per entity, "
              "ascending, and a diff is a non-empty gap-free prefix of what the requester lacks, so delivery never skips an entity; "
              "(4) groupsOrdered is name-descending, hence the first prefix match is the longest enabled user group prefix; "
-             "(5) truncation keeps a prefix of complete chunks and reload restarts from the last version read. The model is tied to the "
+             "(5) truncation keeps a prefix of complete chunks and a reloaded journal satisfies the same invariant with loaderVersion >= the "
+             "last version read. The model is tied to the "
              "code by replaying each generated history op by op on real JournalFast/MetricsStorage objects and on the compiled Lean "
              "model and diffing versions, hashes, journal order and all index maps."),
     "note": ("Trusted: Lean kernel; correspondence on generated histories (quick 300, thorough 4000 cases of 20-70 ops); contents, hashes, "
